@@ -11,19 +11,21 @@ RULE = (
     "cases: (replace) random typed trees x a variable leaf or an inner sub-AST as `old` x a random replacement; "
     "(replace_dict) maps of 1..3 entries incl. leaf_operation; (canonicalize); (excavate_ite/burrow_ite) random "
     "nested-If trees with shared and complemented conditions, asked twice (second answer from the cache) and with "
-    "annotated inputs; (ite_cases / ite_dict) case lists and switch tables of 0..40 entries with negative and "
+    "annotated inputs, plus Ifs whose arms have the same operator and arity and differ in one, two or all arguments "
+    "(flattened three-operand nodes, extraction bounds); (ite_cases / ite_dict) case lists and switch tables of 0..40 entries with negative and "
     ">= 2^w keys; (reverse_ite_cases); (chop, get_bytes, get_byte) all indices; (identical) pairs that are / are "
     "not renamings.  Oracle: Z3 equivalence (private context) between claripy's translation of the utility's output "
     "and a specification term built independently from the descriptors; structural side conditions (no remaining "
     "`old`, injective sort-preserving canonical map, pairwise exclusive and jointly valid reverse cases, chunk "
-    "widths).  identical()==True is judged by trying every sort-preserving bijection of <= 4 variables; False is "
-    "never judged.  Non-trivial: the input contains an operator node; distinct by (utility, descriptor) hash."
+    "widths).  identical()==True is judged by padding the two variable sets with fresh names per sort and trying "
+    "every sort-preserving bijection (<= 5 padded variables, else counted as not judged); False and a call that "
+    "raises are never judged.  Non-trivial: the input contains an operator node; distinct by (utility, descriptor) hash."
 )
 ASSUMPTIONS = ["z3 decides the QF_BV equivalences within the timeout; timeouts fall back to sampling and are counted"]
 
 
 def floors(tier):
-    return {"judged:replace": 200, "judged:replace_dict": 100, "judged:canonicalize": 100, "judged:excavate": 150, "judged:burrow": 150, "judged:ite_cases": 100, "judged:ite_dict": 100, "judged:reverse_ite_cases": 50, "judged:chop": 50, "judged:get_bytes": 100, "judged:identical_true": 20}
+    return {"judged:replace": 200, "judged:replace_dict": 100, "judged:canonicalize": 100, "judged:excavate": 150, "judged:burrow": 150, "judged:ite_cases": 100, "judged:ite_dict": 100, "judged:reverse_ite_cases": 50, "judged:chop": 50, "judged:get_bytes": 100, "judged:identical_true": 20, "ite_reloc_same_op_arms": 40}
 
 
 KINDS = ["replace", "replace_dict", "canonicalize", "ite_reloc", "ite_cases", "ite_dict", "reverse", "chop_bytes", "identical"]
@@ -55,6 +57,33 @@ def ifgen(rng, w, depth, conds, g):
         return [rng.choice(["neg", "inv"]), ifgen(rng, w, depth - 1, conds, g)]
     n = rng.randrange(1, 4)
     return ["extract", w - 1, 0, [rng.choice(["zext", "sext"]), n, ifgen(rng, w, depth - 1, conds, g)]]
+
+
+def same_op_arms(rng, w, conds, g):
+    """If(cond, t, f) whose arms have the same operator and arity and differ in one, two or all arguments -
+    the shapes burrow_ite's argument matching decides on (regression family for the fixed finding
+    burrow-ite-one-match-not-one-difference: flattened three-operand nodes, extraction bounds)."""
+    c = rng.choice(conds)
+    k = rng.randrange(4)
+    if k == 0:
+        # Extract(hi, lo, x): the arms differ in both integer bounds and share the operand
+        x = g.bv(2 * w, 1)
+        lo1, lo2 = rng.sample(range(w + 1), 2)
+        t, f = ["extract", lo1 + w - 1, lo1, x], ["extract", lo2 + w - 1, lo2, x]
+    elif k == 1:
+        # zero/sign extension by different amounts of operands of different widths, then cut back
+        x = g.bv(w, 1)
+        o = rng.choice(["zext", "sext"])
+        t, f = ["extract", w - 1, 0, [o, 1, x]], ["extract", w - 1, 0, [o, 2, x]]
+    else:
+        # flattened n-ary nodes a o b o d  vs  a o b' o d' with one, two or three differing operands
+        o = rng.choice(["add", "xor", "and", "or", "mul"])
+        xs = [g.bv(w, 1) for _ in range(3)]
+        ys = list(xs)
+        for i in rng.sample(range(3), rng.choice([1, 2, 2, 3])):
+            ys[i] = g.bv(w, 1)
+        t, f = [o, [o, xs[0], xs[1]], xs[2]], [o, [o, ys[0], ys[1]], ys[2]]
+    return ["ite", c, t, f]
 
 
 def run_shard(spec, res):
@@ -107,6 +136,7 @@ def run_shard(spec, res):
         return [d[0]] + [subst_desc(x, name, nd) for x in d[1:]]
 
     for it in range(spec["n"]):
+        d = None
         try:
             if kind == "replace":
                 g, d = gen_tree()
@@ -236,6 +266,11 @@ def run_shard(spec, res):
                 g = G.Gen(rng, nvars=2, widths=[w], surface=False, allow_div=False)
                 conds = [g.boolx(1) for _ in range(rng.choice([1, 2, 3]))]
                 d = ifgen(rng, w, rng.choice([2, 3, 4, 5]), conds, g)
+                if it % 4 == 3:
+                    d = same_op_arms(rng, w, conds, g)
+                    res.count("ite_reloc_same_op_arms")
+                    if rng.random() < 0.3:
+                        d = [rng.choice(["add", "xor"]), d, ifgen(rng, w, 2, conds, g)]
                 if rng.random() < 0.3:
                     d = [rng.choice(G.CMP_ALL), d, ifgen(rng, w, 2, conds, g)]
                 annotated = it % 5 == 0
@@ -410,8 +445,13 @@ def run_shard(spec, res):
                     continue
                 try:
                     ans = a.identical(b)
-                except claripy.errors.ClaripyError as e:
+                except Exception as e:  # noqa: BLE001
+                    # the property constrains the answer True only; a call that raises gives no answer.  (BV.identical
+                    # converts both sides with the VSA backend, which raises on several well-formed expressions, e.g.
+                    # AttributeError in BackendVSA.If when a Boolean != over two BoolResults came back as a Python
+                    # bool - DESIGN.md section 7, C13/C24/C25 entry.)  Counted, with the distinct messages in evidence.
                     res.count("identical_raised:" + type(e).__name__)
+                    res.setadd("identical_exceptions", f"{type(e).__name__}: {e}"[:160])
                     continue
                 res.case(["identical", d, d2], True)
                 res.count("identical_answer:" + str(ans))
@@ -426,7 +466,7 @@ def run_shard(spec, res):
         except claripy.errors.ClaripyZeroDivisionError:
             res.count("div0")
         except Exception as e:  # noqa: BLE001
-            res.violation({"kind": "utility", "util": kind, "what": "exception", "observed": repr(e), "tb": traceback.format_exc()[-1800:]})
+            res.violation({"kind": "utility", "util": kind, "what": "exception", "case": d, "observed": repr(e), "tb": traceback.format_exc()[-1800:]})
         if len(keep) > 3000:
             del keep[:1500]
 
